@@ -665,8 +665,67 @@ pub fn all_of_objects(g: &mut G, c: &Ctx, depth: usize) -> Value {
         }
         branches.push(o);
     }
+    // a property declared on both sides: a JSON type on one, an enumeration of literals of that
+    // type on the other (together: a typed enumeration)
+    if !c.cfg.enforced && g.chance(1, 3) {
+        let (ty, lits) = match g.below(3) {
+            0 => ("number", json!([1, 1.5, 2])),
+            1 => ("integer", json!([3, 5, 8])),
+            _ => ("string", json!(["left", "right"])),
+        };
+        let (i, j) = if g.chance(1, 2) { (0, 1) } else { (1, 0) };
+        branches[i]["properties"]["shared_scale"] = json!({"type": ty});
+        branches[j]["properties"]["shared_scale"] = json!({"enum": lits});
+        if g.chance(1, 2) {
+            let mut r: Vec<Value> = branches[i]["required"].as_array().cloned().unwrap_or_default();
+            r.push(json!("shared_scale"));
+            branches[i]["required"] = json!(r);
+        }
+    }
     let _ = depth;
     json!({"allOf": branches})
+}
+
+/// allOf branches inside F: objects whose properties are disjoint, except that one
+/// property may carry `{type: T}` on one side and `{enum: literals of T}` on the other.
+/// Returns the branches with such a pair rewritten to the typed enumeration it denotes.
+fn allof_branches_normalised(bs: &[Value]) -> Option<Vec<Value>> {
+    let mut out: Vec<Value> = bs.to_vec();
+    let mut owner: std::collections::BTreeMap<String, Vec<usize>> = Default::default();
+    for (i, b) in bs.iter().enumerate() {
+        for k in b.get("properties").and_then(|p| p.as_object()).map(|p| p.keys().cloned().collect::<Vec<_>>()).unwrap_or_default() {
+            owner.entry(k).or_default().push(i);
+        }
+    }
+    for (k, idx) in owner {
+        if idx.len() == 1 {
+            continue;
+        }
+        if idx.len() != 2 {
+            return None;
+        }
+        let a = &bs[idx[0]]["properties"][&k];
+        let b = &bs[idx[1]]["properties"][&k];
+        let (t, e) = if a.get("type").is_some() { (a, b) } else { (b, a) };
+        let (Some(to), Some(eo)) = (t.as_object(), e.as_object()) else { return None };
+        if to.len() != 1 || eo.len() != 1 {
+            return None;
+        }
+        let (Some(ty), Some(lits)) = (to.get("type").and_then(|x| x.as_str()), eo.get("enum").and_then(|x| x.as_array())) else { return None };
+        let conforms = |v: &Value| match ty {
+            "number" => v.is_number(),
+            "integer" => v.is_i64(),
+            "string" => v.is_string(),
+            _ => false,
+        };
+        if lits.is_empty() || !lits.iter().all(conforms) {
+            return None;
+        }
+        let merged = json!({"type": ty, "enum": lits});
+        out[idx[0]]["properties"][&k] = merged.clone();
+        out[idx[1]]["properties"].as_object_mut().unwrap().remove(&k);
+    }
+    Some(out)
 }
 
 /// A schema at `depth`.
@@ -783,6 +842,19 @@ pub fn document(g: &mut G, cfg: &Cfg) -> Value {
                 doc.insert(k, v);
             }
             doc.insert("title".into(), json!("RootType"));
+            // the root may contain itself ("$ref": "#"), by value or behind a container
+            if cfg.wide && g.chance(1, 3) {
+                let me = json!({"$ref": "#"});
+                let member = match g.below(4) {
+                    0 => me,
+                    1 => json!({"oneOf": [me, {"type": "null"}]}),
+                    2 => json!({"type": "array", "items": me}),
+                    _ => json!({"type": "array", "items": [me, {"type": "integer"}], "minItems": 2, "maxItems": 2}),
+                };
+                if let Some(p) = doc.entry("properties").or_insert_with(|| json!({})).as_object_mut() {
+                    p.insert("again".into(), member);
+                }
+            }
         }
     }
     Value::Object(doc)
@@ -872,6 +944,18 @@ pub fn in_faithful(schema: &Value, defs: &[String]) -> bool {
                 return false;
             }
             let Some(bs) = o[comb].as_array() else { return false };
+            let norm;
+            let bs: &Vec<Value> = if comb == "allOf" && bs.iter().all(|b| b.get("type") == Some(&json!("object"))) {
+                match allof_branches_normalised(bs) {
+                    Some(n) => {
+                        norm = n;
+                        &norm
+                    }
+                    None => return false,
+                }
+            } else {
+                bs
+            };
             if bs.len() < 2 || !bs.iter().all(|b| in_faithful(b, defs)) {
                 return false;
             }
